@@ -151,6 +151,50 @@ CHECKS = [
                       'Known finding: charge-dummy particles of the polarisable force fields are placed in a fixed/random frame.',
         'technique': 'deterministic simulation: groups of simulated CLI processes under simulator-owned hash seed, RNG and input presentation; metamorphic comparison of outputs',
     },
+    {
+        'property_id': 'C17',
+        'quick_cmd': './check C17 --tier quick',
+        'thorough_cmd': './check C17 --tier thorough',
+        'evidence_file': 'evidence/C17.json',
+        'replay_cmd_template': './check C17 --replay {path}',
+        'engine': 'vsim',
+        'level_claimed': {
+            'category': 'exploration',
+            'text': 'Simulated martinize2 processes with -ss / -collagen / -dssp against an in-process DSSP peer that reads the PDB '
+                    'the real code hands it and answers per residue from the run PRNG, with injected peer faults (non-zero exit, '
+                    'missing executable, unsupported and unparsable version, output truncated on line and byte boundaries, lost and '
+                    'duplicated residue lines, missing header, illegal letters, break lines). Systems contain unselected molecules '
+                    'before and after the protein chains and chains of equal and unequal length. At the stage boundaries of the real '
+                    'processors: every atom of residue k carries element k (three length rules), unselected molecules untouched, '
+                    'mismatch or peer failure is an error and never a shifted assignment, and the Martini translation equals a '
+                    'run-length transcription of the helix rules. A library-level variant runs the real processors on generated '
+                    'systems (long helices, all orders of selected/unselected molecules).',
+            'design_ref': 'DESIGN.md 4/C17, appendix D',
+        },
+        'level_note': 'The peer is a stub (no DSSP binary in the sandbox); the mdtraj path is not driven. Residues are counted in '
+                      'input order (lowest node key). A one-element delivery is treated as the documented repetition.',
+        'technique': 'deterministic simulation: simulated CLI process with a fault-injecting peer process stub, oracle at processor stage boundaries',
+    },
+    {
+        'property_id': 'C06',
+        'quick_cmd': './check C06 --tier quick',
+        'thorough_cmd': './check C06 --tier thorough',
+        'evidence_file': 'evidence/C06.json',
+        'replay_cmd_template': './check C06 --replay {path}',
+        'engine': 'vsim',
+        'level_claimed': {
+            'category': 'exploration',
+            'text': 'The real ISMAGS runs on (graph, pattern) pairs under simulator-owned set-iteration schedules: node keys whose '
+                    'hashes are drawn from the run PRNG (wide, colliding, rank) and whose ordering is an independent seeded rank, '
+                    '6-12 schedules per pair, plus real string keys in fresh interpreters under different PYTHONHASHSEED for a sample. '
+                    'Every schedule is compared with brute-force enumeration: all induced isomorphisms exactly once; one '
+                    'representative per Aut(pattern) orbit with symmetry reduction; largest common subgraphs valid, of maximum size '
+                    'and covering every maximum one up to symmetry; result sets equal across schedules.',
+            'design_ref': 'DESIGN.md 4/C06',
+        },
+        'level_note': 'Bounded by brute force: graph <= 9 nodes, pattern <= 7 nodes, 1-3 node colours, 1-2 edge colours; pairs sampled.',
+        'technique': 'deterministic simulation: seeded hash/ordering schedules for set iteration, brute-force reference oracle',
+    },
 ]
 
 MANIFEST = {
